@@ -40,6 +40,10 @@ Definition chk (c : case) : bool :=
   | _, _ => false
   end.
 
+(* the program stays inside the model's domain (string map keys ...): OutOfModel cases are not comparisons *)
+Definition in_model (c : case) : bool :=
+  let '(r, p, _) := c in match run (mkstate r [] [] []) p with OutOfModel => false | _ => true end.
+
 (* the model's `+` against the regenerated table, at kind level *)
 From Miller Require Import C08.Model gen.Gen_Dispositions.
 Definition kind_of (v : val) : kind :=
